@@ -129,6 +129,28 @@ def _iter_sentinel_loop(st: ast.stmt) -> Optional[List[ast.stmt]]:
     return [loop]
 
 
+def _walrus_loop(st: ast.stmt) -> Optional[List[ast.stmt]]:
+    """`while (x := E) [op K]: BODY` (no else) is `while True: x = E; if not (x [op K]): break; BODY`"""
+    if not (isinstance(st, ast.While) and not st.orelse):
+        return None
+    t = st.test
+    if isinstance(t, ast.NamedExpr) and isinstance(t.target, ast.Name):
+        ne, cond = t, ast.Name(t.target.id, ast.Load())
+    elif isinstance(t, ast.Compare) and isinstance(t.left, ast.NamedExpr) and isinstance(t.left.target, ast.Name) and len(t.ops) == 1 \
+            and not any(isinstance(x, ast.NamedExpr) for c in t.comparators for x in ast.walk(c)):
+        ne = t.left
+        cond = ast.Compare(ast.Name(ne.target.id, ast.Load()), t.ops, [copy.deepcopy(c) for c in t.comparators])
+    else:
+        return None
+    if any(isinstance(x, ast.NamedExpr) for x in ast.walk(ne.value)):
+        return None
+    get = ast.copy_location(ast.Assign([ast.Name(ne.target.id, ast.Store())], copy.deepcopy(ne.value)), st)
+    stop = ast.copy_location(ast.If(ast.UnaryOp(ast.Not(), cond), [ast.copy_location(ast.Break(), st)], []), st)
+    loop = ast.copy_location(ast.While(ast.Constant(True), [get, stop] + list(st.body), []), st)
+    ast.fix_missing_locations(loop)
+    return [loop]
+
+
 def _local_def_as_lambda(st: ast.stmt) -> Optional[List[ast.stmt]]:
     """a nested `def f(a, b): return EXPR` (plain parameters, no decorators) is `f = lambda a, b: EXPR`"""
     if not (isinstance(st, ast.FunctionDef) and not st.decorator_list):
@@ -460,6 +482,8 @@ class Expander:
                 rep = _iter_sentinel_loop(st)
             if rep is None:
                 rep = _dict_update_as_stores(st)
+            if rep is None:
+                rep = _walrus_loop(st)
             if rep is None and stack:
                 rep = _local_def_as_lambda(st)
             if rep is not None:
@@ -510,6 +534,8 @@ class Expander:
             if isinstance(n, ast.Expr) and _dict_update_as_stores(n) is not None:
                 return True
             if isinstance(n, ast.For) and _iter_sentinel_loop(n) is not None:
+                return True
+            if isinstance(n, ast.While) and _walrus_loop(n) is not None:
                 return True
             if n is not fn and isinstance(n, ast.FunctionDef) and _local_def_as_lambda(n) is not None:
                 return True
